@@ -28,6 +28,7 @@ from .relcommon import (
     short,
     time_limit,
     typed_problems,
+    decl_class,
 )
 
 CASINGS = [("camel", betterproto.Casing.CAMEL), ("snake", betterproto.Casing.SNAKE)]
@@ -705,15 +706,15 @@ def _accepted_ok(col, site, cls, data, res):
     """A returned message must be well typed and encodable again."""
     probs = typed_problems(res)
     for f, tag, desc in probs[:3]:
-        col.add("%s:wrong-type:%s" % (site, tag), "%s after parsing %s" % (desc, data.hex()[:80]))
+        col.add("wrong-type:%s" % tag, "%s after parsing %s (%s)" % (desc, data.hex()[:80], site))
     try:
         with time_limit(5.0):
             bytes(res)
     except Exception as e:
         if not probs:
-            col.add("%s:reencode-raises" % site, "%s after parsing %s" % (exc(e), data.hex()[:80]))
+            col.add("reencode-raises", "%s after parsing %s (%s)" % (exc(e), data.hex()[:80], site))
         else:
-            col.add("%s:reencode-raises-after-wrong-type" % site, "%s after parsing %s" % (exc(e), data.hex()[:80]))
+            col.add("reencode-raises-after-wrong-type", "%s after parsing %s (%s)" % (exc(e), data.hex()[:80], site))
 
 
 def _cut_kind(recs, cut):
@@ -826,7 +827,7 @@ def C17(m, rnd):
                 data = x.raw + base if where == "before" else base + x.raw
                 status, res = _try_parse(cls, data)
                 _record_agreement(cls, data, status)
-                label = "%s-%s-as-wt%d" % ("repeated" if f.label == "repeated" else ("map" if f.kind == "map" else "singular"), f.kind if f.kind != "message" else f.elem_kind.replace("msg:", "message-").split("-")[0] if not (f.is_timestamp or f.is_duration or f.wraps) else ("wrapper" if f.wraps else f.elem_kind), wt)
+                label = "%s%s-as-wt%d" % ("repeated-" if f.label == "repeated" else "", decl_class(f), wt)
                 if status == "timeout":
                     col.add("nontermination:wiretype-mismatch", data.hex()[:80])
                     continue
